@@ -35,6 +35,17 @@ def seed():
         return 0
 
 
+def rel(path):
+    """a path below the repository or below /verif without that prefix: random choices are keyed by it, so that the
+    same job makes the same choices wherever the tree under test happens to live"""
+    path = str(path)
+    for base in (REPO, VERIF):
+        b = os.path.abspath(base) + os.sep
+        if os.path.abspath(path).startswith(b):
+            return os.path.abspath(path)[len(b):]
+    return path
+
+
 def rng(tag=""):
     return random.Random("%d/%s" % (seed(), tag))
 
@@ -239,7 +250,7 @@ class Result:
                 continue
             seen_viol.add(key)
             nviol += 1
-            safe = re.sub(r"[^A-Za-z0-9_.-]", "_", "%s_%s" % (fl["site"], fl["kind"]))[:80]
+            safe = re.sub(r"[^A-Za-z0-9_.-]", "_", "%s_%s" % (fl["site"], fl["kind"]))[:72] + "_" + hashlib.sha256(("%s|%s" % (fl["site"], fl["kind"])).encode()).hexdigest()[:6]
             rp = self.write_replay(safe, {"property": self.prop, "kind": "failing-input", "site": fl["site"], "failure": fl["kind"], "detail": fl["detail"], "seed": seed(), "tier": self.tier, "input": fl["replay"]})
             lines.append("VIOLATION property=%s replay=%s" % (self.prop, rp))
         if self.proof_breaks and nviol == 0:
